@@ -460,7 +460,7 @@ func fromCompactValue(v Value, s encoding.Strings, nt *NamespaceTable) b6.Expres
 				typ, ns := r.Reference.TypeAndNamespace.Split()
 				rll = b6.FeatureIDExpression(b6.FeatureID{typ, nt.Decode(ns), r.Reference.Value})
 			} else {
-				vs = append(vs, b6.PointExpression(r.LatLng.ToS2LatLng()))
+				rll = b6.PointExpression(r.LatLng.ToS2LatLng())
 			}
 
 			vs = append(vs, rll)
